@@ -53,7 +53,7 @@ def main(tier, seed):
                                                                      "schedule injection"),
                ("triggers.unwatched_moves_checked", 2000, "trigger sufficiency"),
                ("probe.bc_passes_monitored", 3000, "compiled in-engine probe (plane B)"),
-               ("event_matrix.(type,event) cells", 70, "event x watcher matrix"),
+               ("event_matrix.(type,event) cells", 100, "event x watcher matrix"),
                ("probe.reexecutions", 5000, "compiled in-engine probe (plane B)")],
         assumptions=["O-fix: chaotic iteration of the exhaustive hull operator; equality demanded only for models whose "
                      "constraints are all BC-documented types (gcc with positive capacities, no affine_eq)",
